@@ -67,7 +67,7 @@ def check(ctx: Ctx) -> str:
     ctx.rule("R2", "conversions: integers with int(text.replace('_', ''), 0), floats with literal_eval(text.replace('_', ''))")
     wrap = repo.func("lexer:Lexer.wrap")
     for tok, want in (("TOKEN_INTEGER", "int(value_str.replace('_', ''), 0)"), ("TOKEN_FLOAT", "literal_eval(value_str.replace('_', ''))")):
-        hit = [n for n in ast.walk(wrap.node) if isinstance(n, ast.If) and ast.unparse(n.test) == f"token == {tok}"]
+        hit = [n for n in ast.walk(wrap.nnode) if isinstance(n, ast.If) and ast.unparse(n.test) == f"token == {tok}"]  # normal form: a local naming the cleaned text is inlined
         ok = len(hit) == 1 and any(isinstance(n, ast.Assign) and ast.unparse(n.targets[0]) == "value" and ast.unparse(n.value) == want for n in ast.walk(ast.Module(body=hit[0].body, type_ignores=[])))
         ctx.check(ok, f"convert:{tok}", "lexer:Lexer.wrap", f"{tok} conversion", f"{tok} must be converted with `{want}` (base 0 gives Python's prefix rules; underscores are removed first)", wrap.loc())
     string_pipeline_rule(ctx, "R3")
